@@ -218,6 +218,73 @@ def rule_prefix(model):
         r.finding(b.where, "key.startswith('sequence-')", 'the alternate '
                   "prefix alias does not strip exactly 'sequence-'",
                   node=b.node, ctx=b)
+    # reader of the aliases: p_xxx is recognised by stripping the stored
+    # alternate prefix by its own length; splitting the key at a character
+    # that the prefix grammar allows inside a prefix loses such prefixes
+    g = model.func('DT_InSV', 'sequence_variables.__getitem__')
+    keyp = g.params()[1]
+    alias = {'self.alt_prefix'}
+    for n in own_nodes(g.node):
+        if isinstance(n, ast.Assign) and len(n.targets) == 1 and \
+                isinstance(n.targets[0], ast.Name) and \
+                norm(n.value) == 'self.alt_prefix':
+            alias.add(n.targets[0].id)
+    strip_ok = False
+    for n in own_nodes(g.node):
+        if isinstance(n, ast.Subscript) and norm(n.value) == keyp and \
+                isinstance(n.slice, ast.Slice) and n.slice.upper is None and \
+                isinstance(n.slice.lower, ast.Call) and \
+                norm(n.slice.lower.func) == 'len' and \
+                norm(n.slice.lower.args[0]) in alias:
+            strip_ok = True
+            r.instance(g.where, n, 'alias stripped by the prefix width')
+    mu = model.module('DT_Util')
+    roots = list(mu.globals.get('simple_name', []))
+    if 'simple_name' in mu.funcs:
+        roots.append(mu.funcs['simple_name'].node)
+    if not roots:
+        raise AnalysisError('DT_Util.simple_name (prefix grammar) not found')
+    pats = [x for rt in roots for x in ast.walk(rt)
+            if isinstance(x, ast.Constant)
+            and isinstance(x.value, str) and '[' in x.value]
+    inner = set()
+    import re._parser as _P
+    import re._constants as _C
+    for x in pats:
+        try:
+            tree = _P.parse(x.value)
+        except Exception:
+            continue
+        for op, av in tree:
+            if op is _C.MAX_REPEAT and av[2] and av[2][0][0] is _C.IN:
+                for o, a_ in av[2][0][1]:
+                    if o is _C.LITERAL:
+                        inner.add(chr(a_))
+                    elif o is _C.RANGE:
+                        inner |= {chr(c) for c in range(a_[0], a_[1] + 1)}
+    if not inner:
+        # no explicit grammar (e.g. str.isidentifier): identifiers may
+        # contain the separator
+        inner = {'_'}
+    bad_split = []
+    for n in own_nodes(g.node):
+        if isinstance(n, ast.Call) and isinstance(n.func, ast.Attribute) \
+                and norm(n.func.value) == keyp and n.func.attr in (
+                    'partition', 'rpartition', 'split', 'rsplit', 'find',
+                    'index', 'rfind', 'rindex') and n.args and \
+                isinstance(n.args[0], ast.Constant) and \
+                isinstance(n.args[0].value, str) and \
+                n.args[0].value in inner:
+            bad_split.append(n)
+            r.instance(g.where, n, 'SPLIT AT A PREFIX CHARACTER')
+            r.finding(g.where, n, f'the alias p_name is recognised by '
+                      f'splitting the key at {n.args[0].value!r}, a '
+                      'character the prefix grammar allows inside a prefix: '
+                      'aliases of such prefixes (my_row_item ...) are not '
+                      'found', node=n, ctx=g)
+    if not strip_ok and not bad_split:
+        raise AnalysisError('sequence_variables.__getitem__: alias '
+                            'recognition not understood')
     src = ast.unparse(a.node)
     r.instance(a.where, 'name[len(dp):]')
     if "startswith(dp + '-')" not in src or 'name[len(dp):]' not in src:
